@@ -757,17 +757,31 @@ func (r *realm) registerMetaProcedure(procedure wamp.URI, f func(*wamp.Invocatio
 
 func (r *realm) metaProcedureHandler() {
 	defer close(r.metaDone)
+	// Once the meta session has been ended (realm shutdown) its handler no
+	// longer reads what is sent here; a response that cannot be delivered any
+	// more must not block this goroutine, since close() waits for it.
+	metaSessDone := r.metaSess.RecvDone()
+	send := func(msg wamp.Message) bool {
+		select {
+		case r.metaPeer.Send() <- msg:
+			return true
+		case <-metaSessDone:
+			return false
+		}
+	}
 	var rsp wamp.Message
 	for msg := range r.metaPeer.Recv() {
 		switch msg := msg.(type) {
 		case *wamp.Invocation:
 			metaProcHandler, ok := r.metaProcMap[msg.Registration]
 			if !ok {
-				r.metaPeer.Send() <- &wamp.Error{
+				if !send(&wamp.Error{
 					Type:    msg.MessageType(),
 					Request: msg.Request,
 					Details: wamp.Dict{},
 					Error:   wamp.ErrNoSuchProcedure,
+				}) {
+					return
 				}
 				continue
 			}
@@ -780,7 +794,9 @@ func (r *realm) metaProcedureHandler() {
 		default:
 			r.log.Println("Meta procedure received unexpected", msg.MessageType())
 		}
-		r.metaPeer.Send() <- rsp
+		if !send(rsp) {
+			return
+		}
 	}
 }
 
